@@ -302,6 +302,35 @@ theorem consume_rel (s : State) (sp : SSpec) (n : Int) (h : Rel s sp) (hl : sp.l
               omega
             · simp [ht] at hnf
 
+theorem SeekFrame.refl (s : State) : SeekFrame s s := by constructor <;> rfl
+
+/-- Whatever a seek does, it leaves the description of the source alone. -/
+theorem seek_frame (s : State) (sp : SSpec) (off : Int) (w : Whence) (h : Rel s sp) :
+    SeekFrame s (seek s off w).2 := by
+  by_cases hf : s.fatal = true
+  · simp [seek, hf]; exact SeekFrame.refl _
+  · have hf' : s.fatal = false := by simpa using hf
+    by_cases hcs : s.canSeek = true
+    · obtain ⟨a, b, c⟩ := h.seekable hcs
+      have := seek_spec s off w a b hcs hf' h.bufLt
+      cases ht : targetOf s off w with
+      | none => rw [ht] at this; simp only [] at this; rw [this]; exact SeekFrame.refl _
+      | some t =>
+        rw [ht] at this; simp only [] at this
+        rcases this with ⟨p | p, _⟩ | ⟨p, _⟩
+        · exact p.2.2.2.2.2.2
+        · exact SeekFrame.of_filt p.2.1
+        · exact SeekFrame.of_filt p.2.1
+    · have : s.canSeek = false := by simpa using hcs
+      simp [seek, hf', this]; exact SeekFrame.refl _
+
+theorem seek_keeps (s : State) (sp : SSpec) (off : Int) (w : Whence) (h : Rel s sp) (hns : NoSeekSkip s) :
+    (seek s off w).2.skips = s.skips ∧ NoSeekSkip (seek s off w).2 := by
+  have hfr := seek_frame s sp off w h
+  refine ⟨hfr.skips, ?_⟩
+  unfold NoSeekSkip at *
+  rw [hfr.noSkipper, hfr.hasSeeker]; exact hns
+
 theorem seek_seeksOk (s : State) (off : Int) (w : Whence) (h : Rel s sp) (hq : SeeksOk s.seeks) :
     SeeksOk (seek s off w).2.seeks := by
   by_cases hf : s.fatal = true
